@@ -56,6 +56,8 @@ func applyLoopRules(r *Run, ic string) {
 }
 
 func runC16(r *Run) {
+	acceptancePathRules(r)   // what "verified" means for every delivered block
+	descendantHashBinding(r) // and for what a delivered contract-receive carries
 	r.CacheInventory([]string{"consensus", "consensus/storage", "verifier", "protocol", "chain", "chain/momentum"}, cacheTriage, "a side chain is verified against elections and views of *its* branch: a memo keyed by tick or height serves the abandoned branch's answer")
 	ic := c16Aliases(r)
 
